@@ -1404,3 +1404,42 @@ def nullorder(repo):
                     "(`0 [+1] UInt:16[] z` must need a byte order)", ATTRIBUTE_CHECKER, f.node.lineno, f.name)
     res.analysed = [ATTRIBUTE_CHECKER]
     return res
+
+
+def bitsfield(repo):
+    """R-BITSFIELD (C14/C07): back-end precondition vs. front-end check.  header_generator renders a bits-typed field of a
+    struct as `BitBlock<<orderer>, {field size in bits}>`: the size is the *field's* constant size (None when it is not
+    constant) and the runtime static_asserts it is at most 64.  So constraints._check_type_requirements_for_field must,
+    for a BIT-addressable structure placed in a BYTE-addressable parent, report (a) a non-constant field size
+    (`field_min_size != field_max_size`) and (b) a field larger than 64 bits -- each in a branch that appends an error."""
+    res = RuleResult("R-BITSFIELD")
+    m = repo.mod("compiler/front_end/constraints.py")
+    fs = [f for f in m.top_funcs() if f.name == "_check_type_requirements_for_field"]
+    if not fs:
+        raise AnalysisError("constraints._check_type_requirements_for_field not found")
+    f = fs[0]
+    have = {"dynamic": False, "wide": False}
+    for n in walk_no_nested_funcs(f.node):
+        if not isinstance(n, ast.If):
+            continue
+        t = ast.unparse(n.test)
+        if "AddressableUnit.BIT" in t and "AddressableUnit.BYTE" in t:
+            for sub in ast.walk(n):
+                if isinstance(sub, ast.If) and sub is not n:
+                    st = ast.unparse(sub.test).replace(" ", "")
+                    errs = any(isinstance(x, ast.Call) and isinstance(x.func, ast.Attribute) and x.func.attr == "append"
+                               and "errors" in ast.unparse(x.func.value) for x in ast.walk(sub))
+                    if errs and ("field_min_size!=field_max_size" in st or "field_max_size!=field_min_size" in st):
+                        have["dynamic"] = True
+                    if errs and re.search(r"field_m(ax|in)_size>64", st):
+                        have["wide"] = True
+    res.instances = 2
+    if not have["dynamic"]:
+        res.add(f"{m.rel}|_check_type_requirements_for_field|bits-dynamic-field", "no check rejects a `bits` type placed in a "
+                "struct field whose size is not a compile-time constant (`1 [+n] Named named`): the header contains "
+                "`BitBlock<..., None>`", m.rel, f.node.lineno, f.name)
+    if not have["wide"]:
+        res.add(f"{m.rel}|_check_type_requirements_for_field|bits-wide-field", "no check rejects a `bits` type placed in a struct "
+                "field wider than 64 bits (`0 [+9] bits:`): the header fails the runtime's static_assert", m.rel, f.node.lineno, f.name)
+    res.analysed = [m.rel]
+    return res
